@@ -177,15 +177,29 @@ def inspect_frame(frame: FrameType) -> FrameDetails:
             # we read from iframe_raw. All accesses to the
             # InterpreterFrame object are kept within this
             # consistency-checked loop for that reason.
+            #
+            # If the frame's thread *exits* after the frame has returned, the
+            # memory that held the InterpreterFrame is unmapped, and reading
+            # through a stale iframe_raw would crash the interpreter rather
+            # than fail an assertion. So we do every call that the header
+            # checks need (a call is a point where the interpreter may switch
+            # threads) before dereferencing f_frame, and verify that the frame
+            # hasn't moved on immediately before reading through the pointer,
+            # with no call or backward jump in between.
+            globals_id = id(frame.f_globals)
+            builtins_id = id(frame.f_builtins)
+            code_id = id(frame.f_code)
+            frame_id = id(frame)
             iframe_raw = frame_raw.f_frame.contents
             if _verif.ENABLED:
                 _verif.point("snap_deref", frame=frame)
-            assert iframe_raw.f_globals == id(frame.f_globals)
-            assert iframe_raw.f_builtins == id(frame.f_builtins)
-            assert iframe_raw.f_code == id(frame.f_code)
+            assert frame.f_lasti == lasti_before
+            assert iframe_raw.f_globals == globals_id
+            assert iframe_raw.f_builtins == builtins_id
+            assert iframe_raw.f_code == code_id
             # frame_obj is null if this iframe is owned by the frame object (thus
             # physically contained within it), to avoid a circular reference
-            assert iframe_raw.frame_obj in (0, id(frame))
+            assert iframe_raw.frame_obj in (0, frame_id)
 
             # Figure out what portion of the stack is actually valid
             stacktop_copy = iframe_raw.stacktop
